@@ -80,7 +80,7 @@ def expected_kind(tree_index, sel):
 
 def run(tier):
     chk = Check("C03", tier)
-    chk.proofs(extra_files=["Corr/K03.v"])   # [agentH]
+    chk.proofs(extra_files=["Corr/K03.v", "Props/C03Serve.v"])   # [agentH]
     found = False
     rng = chk.rng
     tree = trees.rich_tree(rng, hostile=True, n_hostile=8)
